@@ -480,7 +480,6 @@ func (o *oracleC11) AfterStep(w *World, st *Step, msgs []sdk.Msg, res *abci.Resp
 	default:
 		w.Probe("leg:legit")
 		o.covered[url] = true
-		w.ProbeN("covered_msg_types", 0)
 		if postSeq[creator] != o.preSeq[creator]+1 {
 			w.Violate("C11:creator-signed-rejected:"+short, "%s signed by its creator %s did not pass authentication (code %d %s: %s)", url, creator, res.Code, res.Codespace, res.Log)
 		} else if res.Code == 6 && res.Codespace == "sdk" && strings.Contains(res.Log, "unrecognized") {
